@@ -208,10 +208,10 @@ def run(ctx, idx):
             if not (".inputs" in s and " in " in s and ".name" in s):
                 probs.append("cleaning is skipped under `%s`" % s)
         c0 = cl[0].ast
-        recv = K.src(c0.func.value)
+        recv = K.src(K.expand(pr, c0.func.value))
         if ".inputs[" not in recv:
             probs.append("the value is not cleaned by the declared parameter (%s)" % recv)
-        if not c0.args or not K.src(c0.args[0]).endswith(".value"):
+        if not c0.args or not K.src(K.expand(pr, c0.args[0])).endswith(".value"):
             probs.append("clean is not given the argument's value")
         if probs:
             ctx.violate("C12.b", con, K.rel(pr), head.line, "; ".join(probs[:3]))
